@@ -14,12 +14,18 @@ CONSTANTS MaxN, SlotSizes, MaxMargin, Cycles
 VARIABLES n, S, m, t
 vars == <<n, S, m, t>>
 
+\* constant-level definitions (explicit parameters), used by the trace specification too
+StartOf(SS, p) == p * SS
+EndOf(SS, mm, p) == IF SS > mm THEN p * SS + SS - mm ELSE p * SS + (SS \div 2)
+Auth(nn, SS, mm, p, x) ==
+  IF nn = 1 THEN TRUE ELSE StartOf(SS, p) <= x % (nn * SS) /\ x % (nn * SS) < EndOf(SS, mm, p)
+
 Cycle == n * S
-Start(p) == p * S
-End(p)   == IF S > m THEN p * S + S - m ELSE p * S + (S \div 2)
+Start(p) == StartOf(S, p)
+End(p)   == EndOf(S, m, p)
 Pos == 0..(n - 1)
 InWindow(p, x) == Start(p) <= x /\ x < End(p)
-Authorised(p, x) == IF n = 1 THEN TRUE ELSE InWindow(p, x % Cycle)
+Authorised(p, x) == Auth(n, S, m, p, x)
 
 Init == /\ n \in 1..MaxN
         /\ S \in SlotSizes
